@@ -27,12 +27,15 @@ REQUIRED = ["key_only_loaded", "lower_case_key", "duplicate_key", "param_after_n
 
 
 def anchors():
-    from simfile.base import BaseSimfile
-    from simfile.sm import SMChart, SMSimfile
-    from simfile.ssc import SSCChart, SSCSimfile
+    from ..core import pick
 
-    return {"BaseSimfile.serialize": BaseSimfile.serialize, "SMChart.serialize": SMChart.serialize,
-            "SSCChart.serialize": SSCChart.serialize, "SMSimfile._parse": SMSimfile._parse, "SSCSimfile._parse": SSCSimfile._parse}
+    return pick(
+        "simfile.base:BaseSimfile.serialize",
+        "simfile.sm:SMChart.serialize",
+        "simfile.ssc:SSCChart.serialize",
+        "simfile.sm:SMSimfile._parse",
+        "simfile.ssc:SSCSimfile._parse",
+    )
 
 
 def cases(ctx):
